@@ -68,6 +68,17 @@ def scenarios(tier):
                         "threads": {"T%d" % (i + 1): [MENU[x]] for i, x in enumerate(tri)}})
         out.append({"name": "M1;R||M2 doc absent", "init": "empty", "formats": FORMATS, "pids": ("p1",),
                     "threads": {"T1": [MENU["M1"], MENU["R"]], "T2": [MENU["M2"]]}})
+    # the ORDER in which a directory is listed is arbitrary: every scenario in which a delete-all / delete_object walks two
+    # documents is run again with the listing reversed (quick: the delete-all ones); and a pid with THREE documents
+    out.append({"name": "M1f||Da three documents", "init": "meta3", "formats": FORMATS + ("f3",), "pids": ("p1",),
+                "threads": {"T1": [MENU["M1f"]], "T2": [MENU["Da"]]}})
+    out.append({"name": "Dff||Da three documents", "init": "meta3", "formats": FORMATS + ("f3",), "pids": ("p1",),
+                "threads": {"T1": [MENU["Dff"]], "T2": [MENU["Da"]]}})
+    for sp in list(out):
+        walks = any(op in (MENU["Da"], MENU["DO"]) for prog in sp["threads"].values() for op in prog)
+        if walks and sp["init"] in ("meta2", "p1A+meta2", "meta3") and (
+                tier == "thorough" or any(op == MENU["Da"] for prog in sp["threads"].values() for op in prog)):
+            out.append(dict(sp, name=sp["name"] + " [listing reversed]", listing="reverse"))
     from .c08 import faulted_scenarios
     for sp in faulted_scenarios(tier):
         if not all(op[0] in ("store_meta", "delete_meta") for prog in sp["threads"].values() for op in prog):
